@@ -28,7 +28,7 @@ ASSUMPTIONS = ["lon/lat output values are judged by C16, not here", "the history
 TIERS = {"quick": dict(runs=900, budget_s=50, shrink=150),
          "thorough": dict(runs=100000, budget_s=900, shrink=250)}
 REQUIRED_PROBES = ["warm_start_records", "empty_record", "highest_pid_dead_at_close", "dense", "time_particle_variable", "death_between_records",
-                   "out_of_grid_death", "multi_file", "empty_state_at_close"]
+                   "out_of_grid_death", "multi_file", "empty_state_at_close", "packed_output_variable"]
 
 PROFILE = gen.profile(
     nsteps=(2, 30), p_reversed=0.15, p_land=0.4, p_subgrid=0.3, rows=(1, 8), p_late_rows=0.8, p_rows_outside=0.2,
@@ -62,6 +62,11 @@ def generate(seed: int, tier: str, idx: int) -> dict:
         f4 = any(t == "f4" for t in sc["output"]["ivars"].values())
         gen.make_restartable(sc, f8=not f4)
         sc["plan"] = {"warm": True}
+    elif stream(seed, "c06.packed").chance(0.3):
+        # positions written packed, as examples/killer/dense.yaml does: integer type with a scale factor
+        sc["output"]["ivars"]["X"] = "i4"
+        sc["output"]["ivars"]["Y"] = "i2"
+        sc["output"]["packed"] = {"X": 0.001, "Y": 0.01}
     return sc
 
 
@@ -79,6 +84,12 @@ def is_fill(x: np.ndarray) -> np.ndarray:
     if x.dtype.kind == "f":
         return np.isnan(x) | (np.abs(x) > 9.0e36)
     return (x == -2147483647) | (x == -32767) | (x == -9223372036854775806)
+
+
+def same_packed(got, state_value, scale: float) -> bool:
+    """a packed variable holds the state value to half a unit of its scale factor"""
+    got, want = np.asarray(got, dtype=float), np.asarray(state_value, dtype=float)
+    return got.shape == want.shape and bool(np.all(np.abs(got - want) <= 0.5000001 * scale + 1e-12))
 
 
 def same(a, b) -> bool:
@@ -171,6 +182,9 @@ def check_run(res: Result, sc, run, d, stem: str, ref_t, warm: bool = False) -> 
                                           f"{f.var_dtype[name]} {f.var_dims[name]}", f"{np.dtype(nctype)} {dim}"))
             res.probes["file_format_judged"] += 1
         ivars = {k: t for k, t in out["ivars"].items() if k not in ("lon", "lat")}
+        packed = out.get("packed", {})
+        if packed and run.error is None:
+            res.probes["packed_output_variable"] += 1
         if layout == "dense":
             ivars.pop("pid", None)
         # deaths between records: the living count drops inside a tracker or an IBM call
@@ -212,6 +226,11 @@ def check_run(res: Result, sc, run, d, stem: str, ref_t, warm: bool = False) -> 
                     if name not in r["data"]:
                         res.add(Violation("C06.values", snap["step"], f"{name} missing in file", "", name))
                         continue
+                    if name in packed:
+                        if not same_packed(r["data"][name], snap["vars"][name][alive], packed[name]):
+                            res.add(Violation("C06.values", snap["step"], f"record {k} {name} (packed, scale {packed[name]})",
+                                              r["data"][name], snap["vars"][name][alive]))
+                        continue
                     want = stored(snap["vars"][name][alive], nct)
                     if not same(r["data"][name], want):
                         res.add(Violation("C06.values", snap["step"], f"record {k} {name}", r["data"][name], want))
@@ -226,10 +245,16 @@ def check_run(res: Result, sc, run, d, stem: str, ref_t, warm: bool = False) -> 
                         res.add(Violation("C06.members", snap["step"], f"record {k} {name}: particle dimension",
                                           len(row), f"> {pid.max()}"))
                         continue
-                    if not same(row[pid], want):
+                    if name in packed:
+                        if not same_packed(row[pid], snap["vars"][name][alive], packed[name]):
+                            res.add(Violation("C06.values", snap["step"], f"record {k} {name} at alive pids (packed, scale "
+                                              f"{packed[name]})", row[pid], snap["vars"][name][alive]))
+                    elif not same(row[pid], want):
                         res.add(Violation("C06.values", snap["step"], f"record {k} {name} at alive pids", row[pid], want))
                     others = np.ones(len(row), dtype=bool)
                     others[pid] = False
+                    if name in packed:      # read back scaled: the fill value shows as fill x scale factor
+                        row = np.rint(row / packed[name]).astype(np.int64)
                     if not is_fill(row[others]).all():
                         bad = np.nonzero(others & ~is_fill(row))[0]
                         res.add(Violation("C06.dense_fill", snap["step"],
